@@ -264,6 +264,21 @@ def abstract_result(fn, *args):
     return fn(*args)
 
 
+def text_len(s):
+    return len(s)
+
+
+def char_code(s, i):
+    """Code point of s[i] (0 <= i < len(s); total at spec level: -1 outside)."""
+    return ord(s[i]) if 0 <= i < len(s) else -1
+
+
+def is_suffix_view(a, b):
+    """a is a suffix of b (for symbolic-length texts: a view of b's characters ending where b
+    ends)."""
+    return b.endswith(a)
+
+
 def starts_with(x, lit):
     return x.startswith(lit)
 
